@@ -91,7 +91,7 @@ def r_dimension(chk, P, tier):
 def run(chk, tier):
     P = Prog("default")
     chk.configs.add("default")
-    for r in (r_ord, r_projections, r_glue, r_passthrough, r_day_tables, r_dimension, r_at_transition, r_days_since_epoch, r_offset_sign_shared, r_rule_day_time):
+    for r in (r_ord, r_projections, r_glue, r_passthrough, r_day_tables, r_dimension, r_at_transition, r_days_since_epoch, r_offset_sign_shared, r_rule_day_time, r_rule_map):
         chk.guarded(r, P, tier)
     chk.assume("which transition applies to an instant, gap/fold classification on the exact second, the hemisphere/sign branches and rule-day arithmetic are "
                "comparisons between runtime quantities and are NOT decided; only the ordering of the two fold candidates and the contract glue are")
@@ -446,3 +446,184 @@ def r_rule_day_time(chk, P, tier):
             chk.expect(v >= 1, "%s %s instant" % (fn.split("::")[-1], k), "%s: no integer local combines the %s day with the %s time (anchor lost)" % (fn, k, k), loc=P.loc(fn))
             for _ in range(min(v, 2) - 1):
                 chk.ok("%s %s instant+" % (fn.split("::")[-1], k))
+
+
+def r_rule_map(chk, P, tier):
+    """POSIX-rule zones as value maps. (A) RuleDay::unix_time for every Mm.w.d rule day (12 x 5 x 7), the Jn and n forms on both sides of the leap day and at the ends, in one
+    year per year class: equals the calendar's date of that rule day. (B) AlternateTime::find_local_time_type for a family of rules (northern, southern, negative DST,
+    Julian forms, negative and > 24 h transition times) at instants on both sides of every transition of three years: equals "DST iff the last transition at or before the
+    instant is a DST start", with the transitions computed by the calendar oracle. (C) find_local_time_type_from_local for wall-clock times on both sides of every gap and
+    fold boundary (the boundary seconds themselves are excepted by the property): none / one / both candidates, earliest first, by inverting (B) with the oracle.
+    Folding of def-use terms, no execution; UtcDateTime::from_timespec contains a loop the folder does not unroll: its year is supplied from the oracle (assumption)."""
+    import calendar_oracle as cal
+    from finmap import Folder, show, Unknown
+    from rules import table_value, find_calls as fc
+    from props.c01 import flags_of
+    R = T + "rule::"
+    AT = R + "AlternateTime"
+    LT = T + "timezone::LocalTimeType"
+    chk.rule("MAP.rule_zone", "RuleDay::unix_time, AlternateTime::find_local_time_type and ::find_local_time_type_from_local folded over a rule family and all transition neighbourhoods equal the calendar oracle", floor=8000)
+    fo = Folder(P, max_depth=14)
+    tbl = [flags_of(c) for c in table_value(P, "naive::internals::YEAR_TO_FLAGS")]
+    epoch = cal.day_number(1970, 1, 1)
+    reps = {}
+    for y in range(2000, 2400):
+        reps.setdefault(tbl[y % 400], y)
+    years = sorted(reps.values()) + [1970, 1900, -4]
+    bad = {}
+    n_ok = [0]
+
+    def expect(cls, a, got, w):
+        if got == w:
+            n_ok[0] += 1
+        else:
+            bad.setdefault(cls, (a, got, w))
+
+    def mwd(m, w, d):
+        return ("agg", "adt", R + "RuleDay", "MonthWeekday", (("const", m), ("const", w), ("const", d)), 2)
+
+    def j1(n):
+        return ("agg", "adt", R + "RuleDay", "Julian1WithoutLeap", (("const", n),), 0)
+
+    def j0(n):
+        return ("agg", "adt", R + "RuleDay", "Julian0WithLeap", (("const", n),), 1)
+
+    def rule_day_number(rd, y):
+        """oracle: day number (days from CE) of a rule day in year y; rd = ('M', m, w, d) | ('J', n) | ('N', n)"""
+        jan1 = cal.day_number(y, 1, 1)
+        if rd[0] == "N":
+            return jan1 + rd[1]
+        if rd[0] == "J":
+            n = rd[1]
+            return jan1 + n - 1 + (1 if cal.leap(y) and n >= 60 else 0)
+        _, m, w, d = rd           # d: 0 = Sunday
+        first = cal.weekday(y, m, 1)          # 0 = Monday
+        first_sun0 = (first + 1) % 7
+        day = 1 + (d - first_sun0) % 7 + (w - 1) * 7
+        if day > cal.days_in_month(y, m):
+            day -= 7
+        return cal.day_number(y, m, day)
+
+    def term(rd):
+        return mwd(*rd[1:]) if rd[0] == "M" else (j1(rd[1]) if rd[0] == "J" else j0(rd[1]))
+    # (A)
+    rule_days = [("M", m, w, d) for m in range(1, 13) for w in range(1, 6) for d in range(7)] + [("J", n) for n in (1, 31, 59, 60, 61, 200, 364, 365)] + [("N", n) for n in (0, 58, 59, 60, 61, 200, 364)]
+    for y in years:
+        for rd in rule_days:
+            for t in (0, 7200, -3600):
+                if rd[0] == "M" and t != 7200:
+                    continue
+                try:
+                    got = show(fo.call(R + "RuleDay::unix_time", [("ref", term(rd)), ("const", y), ("const", t)]))
+                except Unknown as e:
+                    got = "unknown: %s" % e
+                expect("unix_time %s" % {"M": "Mm.w.d", "J": "Jn", "N": "n"}[rd[0]], (rd, y, t), got, (rule_day_number(rd, y) - epoch) * 86400 + t)
+
+    # (B), (C)
+    def ltt(off, dst):
+        return ("agg", "adt", LT, "LocalTimeType", (("const", off), ("const", dst), ("agg", "adt", "std::option::Option", "None", (), 0)), 0)
+
+    def at(r):
+        return ("agg", "adt", AT, "AlternateTime", (ltt(r["std"], False), ltt(r["dst"], True), term(r["start"]), ("const", r["st"]), term(r["end"]), ("const", r["et"])), 0)
+    rules = [
+        dict(name="CET-1CEST,M3.5.0,M10.5.0/3", std=3600, dst=7200, start=("M", 3, 5, 0), st=7200, end=("M", 10, 5, 0), et=10800),
+        dict(name="EST5EDT,M3.2.0,M11.1.0", std=-18000, dst=-14400, start=("M", 3, 2, 0), st=7200, end=("M", 11, 1, 0), et=7200),
+        dict(name="AEST-10AEDT,M10.1.0,M4.1.0/3", std=36000, dst=39600, start=("M", 10, 1, 0), st=7200, end=("M", 4, 1, 0), et=10800),
+        dict(name="IST-1GMT0,M10.5.0,M3.5.0/1", std=3600, dst=0, start=("M", 10, 5, 0), st=7200, end=("M", 3, 5, 0), et=3600),
+        dict(name="XXX3YYY,J60/0,J300/0", std=-10800, dst=-7200, start=("J", 60), st=0, end=("J", 300), et=0),
+        dict(name="XXX-5:30YYY-6:45,59/2,299/2", std=19800, dst=24300, start=("N", 59), st=7200, end=("N", 299), et=7200),
+        dict(name="WGT3WGST,M3.5.0/-2,M10.5.0/-1", std=-10800, dst=-7200, start=("M", 3, 5, 0), st=-7200, end=("M", 10, 5, 0), et=-3600),
+        dict(name="IST-2IDT,M3.4.4/26,M10.5.0", std=7200, dst=10800, start=("M", 3, 4, 4), st=93600, end=("M", 10, 5, 0), et=7200),
+        dict(name="SOUTH4NEG3,M9.1.6/24,M4.1.6/24", std=-14400, dst=-10800, start=("M", 9, 1, 6), st=86400, end=("M", 4, 1, 6), et=86400),
+    ]
+    fn_utc = AT + "::find_local_time_type"
+    fn_loc = AT + "::find_local_time_type_from_local"
+    keys = {pp(c) for p_ in Sym(P, fn_utc).paths() for t in [x[1] for x in p_.conds] for c in fc(t) if c[1].endswith("UtcDateTime::from_timespec")}
+    if len(keys) != 1:
+        raise AnchorLost("find_local_time_type: expected one from_timespec term, found %s" % sorted(keys))
+    key = keys.pop()
+    UD = R + "UtcDateTime"
+
+    def ud(y):
+        return ("agg", "adt", "std::result::Result", "Ok", (("agg", "adt", UD, "UtcDateTime", (("const", y),) + tuple(("const", 1) for _ in range(5)), 0),), 0)
+
+    def year_of(t):
+        dn = t // 86400 + epoch
+        y = dn * 400 // 146097
+        while cal.day_number(y, 1, 1) > dn:
+            y -= 1
+        while cal.day_number(y + 1, 1, 1) <= dn:
+            y += 1
+        return y
+
+    def ndt(local):
+        dn = local // 86400 + epoch
+        y = year_of(local)
+        o = dn - cal.day_number(y, 1, 1) + 1
+        yof = (y << 13) | (o << 4) | tbl[y % 400]
+        return ("agg", "adt", "naive::datetime::NaiveDateTime", "NaiveDateTime",
+                (("agg", "adt", "naive::date::NaiveDate", "NaiveDate", (("const", yof),), 0), ("agg", "adt", "naive::time::NaiveTime", "NaiveTime", (("const", local % 86400), ("const", 0)), 0)), 0)
+    ys = (2023, 2024, 2000) if tier != "thorough" else (2023, 2024, 2000, 2100, 1999, 2038, 1970)
+    for r in rules:
+        rt = ("ref", at(r))
+        trans = []      # (instant, becomes_dst)
+        for y in range(min(ys) - 2, max(ys) + 3):
+            trans.append(((rule_day_number(r["start"], y) - epoch) * 86400 + r["st"] - r["std"], True))
+            trans.append(((rule_day_number(r["end"], y) - epoch) * 86400 + r["et"] - r["dst"], False))
+        trans.sort()
+
+        def is_dst(t):
+            last = None
+            for (u, d) in trans:
+                if u <= t:
+                    last = d
+            return last
+        for y in ys:
+            lo, hi = (cal.day_number(y, 1, 1) - epoch) * 86400, (cal.day_number(y + 1, 1, 1) - epoch) * 86400
+            inst = {lo, lo + 1, hi - 1, (lo + hi) // 2}
+            for (u, d) in trans:
+                if lo - 86400 <= u < hi + 86400:
+                    inst |= {u - 86400, u - 3600, u - 2, u - 1, u, u + 1, u + 2, u + 3600, u + 86400}
+            for t in sorted(inst):
+                w = is_dst(t)
+                try:
+                    v = show(fo.call(fn_utc, [rt, ("const", t)], bind={key: ud(year_of(t))}))
+                    got = v[1][2] if isinstance(v, tuple) and v[0] == "Result::Ok" else v
+                except Unknown as e:
+                    got = "unknown: %s" % e
+                expect("find_local_time_type [%s]" % r["name"], t, got, w)
+            # wall-clock times around every gap / fold boundary of the year
+            delta = r["dst"] - r["std"]
+            locs = {lo + 43200, (lo + hi) // 2}
+            excl = set()
+            for (u, d) in trans:
+                if lo <= u < hi:
+                    a, b = u + r["std"], u + r["dst"]        # the same instant on the two wall clocks
+                    excl |= {a, b}
+                    for x in (a, b):
+                        locs |= {x - 86400, x - 2, x - 1, x + 1, x + 2, x + 86400}
+                    locs.add((a + b) // 2)
+            for L in sorted(locs - excl):
+                c_std, c_dst = L - r["std"], L - r["dst"]
+                ok_std, ok_dst = is_dst(c_std) is False, is_dst(c_dst) is True
+                cands = sorted([(c_std, "std")] * ok_std + [(c_dst, "dst")] * ok_dst)
+                w = tuple(k for _, k in cands)
+                try:
+                    v = show(fo.call(fn_loc, [rt, ndt(L)]))
+                    if isinstance(v, tuple) and v[0] == "Result::Ok":
+                        m = v[1]
+                        if m == "LocalResult::None":
+                            got = ()
+                        elif isinstance(m, tuple):
+                            got = tuple("dst" if x[2] else "std" for x in m[1:])
+                        else:
+                            got = m
+                    else:
+                        got = v
+                except Unknown as e:
+                    got = "unknown: %s" % e
+                expect("find_local_time_type_from_local [%s]" % r["name"], L, got, w)
+    for _ in range(n_ok[0]):
+        chk.ok("value")
+    for cls, (a, got, w) in sorted(bad.items()):
+        chk.bad(cls, "%s: argument %s folds to %s, the calendar oracle gives %s" % (cls, a, got, w), loc=P.loc(fn_utc if "from_local" not in cls else fn_loc))
